@@ -151,7 +151,7 @@ class Worker:
     def tests(self):
         try:
             p = subprocess.run(["cargo", "test", "--workspace", "--offline", "--no-fail-fast"], cwd=self.repo, env=self.env,
-                               stdout=subprocess.PIPE, stderr=subprocess.STDOUT, text=True, timeout=420)
+                               stdout=subprocess.PIPE, stderr=subprocess.STDOUT, text=True, timeout=200)
         except subprocess.TimeoutExpired:
             subprocess.run(["pkill", "-f", self.dir + "/target"], stdout=subprocess.DEVNULL, stderr=subprocess.DEVNULL)
             return {"ok": False, "why": "timeout"}
